@@ -270,6 +270,11 @@ where
                                             panic!("source must not pull");
                                         },
                                         Message::Error(error) => {
+                                            // the source may end from inside the delivery of the
+                                            // n-th item: that delivery must not end things again
+                                            if end.swap(true, AtomicOrdering::AcqRel) {
+                                                return;
+                                            }
                                             call!(
                                                 sink,
                                                 Message::Error(error),
@@ -277,6 +282,9 @@ where
                                             );
                                         },
                                         Message::Terminate => {
+                                            if end.swap(true, AtomicOrdering::AcqRel) {
+                                                return;
+                                            }
                                             call!(sink, Message::Terminate, "to sink: {message:?}");
                                         },
                                     }
